@@ -349,3 +349,170 @@ def install(lib):
 
 
 GROUP = "network"
+
+
+# ============================================================================ the memory-light variant (C07: same weights)
+WEB_NONE = z3.Function("BLOCK_RESOLVES_TO_NO_WEBENTITY", INT, BOOL)
+WEB = z3.Function("WEBENTITY_OF_BLOCK", INT, INT)  # nearest webentity at or above the head in that block (NEAR of contracts/trie.py)
+SN_LINKS = z3.Function("N_LINKS_OF_ITEM", INT, INT)
+S_TARGET = z3.Function("ITEM_LINK_TARGET", INT, INT, INT)
+S_WEIGHT = z3.Function("ITEM_LINK_WEIGHT", INT, INT, INT)
+SNC = z3.Function("N_COUNTED_OF_ITEM", INT, INT, INT)
+
+
+def s_resolves(b):
+    return z3.And(z3.Not(WEB_NONE(b)), WEB(b) != 0)
+
+
+def s_counted(j, l):
+    t = S_TARGET(j, l)
+    return z3.And(s_resolves(t), z3.Or(INCLUDE_AUTO, WEB(ITEM_BLOCK(j)) != WEB(t)))
+
+
+def slow_axioms():
+    j, l = z3.Ints("j l")
+    return [
+        N_ITEMS >= 0,
+        z3.ForAll([j], SN_LINKS(j) >= 0),
+        # the webentity a traversal item carries is the one its block resolves to (both
+        # are NEAR of the head: contracts of dfs_with_webentity_iter and windup_lru_for_webentity)
+        z3.ForAll([j], z3.And(ITEM_NOWE(j) == WEB_NONE(ITEM_BLOCK(j)), z3.Implies(z3.Not(ITEM_NOWE(j)), ITEM_WE(j) == WEB(ITEM_BLOCK(j))))),
+        z3.ForAll([j], SNC(j, 0) == 0),
+        z3.ForAll([j, l], z3.Implies(l >= 0, SNC(j, l + 1) == SNC(j, l) + z3.If(s_counted(j, l), 1, 0))),
+    ]
+
+
+class SlowWalk(Contract):
+    qual = "LinkStore.weighted_link_nodes_iter"
+
+    def seq(self, ex, p, recv, args, kw, ln):
+        q = p.fork()
+        j = q.w["__cur_item"]
+        ex.oblige(q, "walks-the-links-of-the-page-in-hand", z3.And(HAS_LINKS(j), to_z3(args[0]) == LINKS_HEAD(j)), ln, "post")
+        lv = fresh("link_index", INT)
+        q.w["__cur_link"] = lv
+        q.w["__adds"] = z3.IntVal(0)
+        q.w["__read"] = z3.IntVal(-1)
+        q.mut += 1
+        return q, SeqView(SN_LINKS(j), lambda l: (S_TARGET(j, l), S_WEIGHT(j, l)), facts=lambda l: [lv == l])
+
+
+class Scratch(Contract):
+    qual = "LRUTrie.node"
+
+    def apply(self, ex, p, recv, args, kw, ln):
+        q = p.fork()
+        return [(q, q.new_obj("LRUTrieNode", {"__abstract": True, "__scratch": True, "block": None}))]
+
+
+class ScratchRead(Contract):
+    qual = "LRUTrieNode.read"
+
+    def apply(self, ex, p, recv, args, kw, ln):
+        q = p.fork()
+        o = q.obj(recv)
+        if not o.f.get("__scratch"):
+            raise Unsupported("read of a node that is not the scratch node")
+        j, l = q.w["__cur_item"], q.w["__cur_link"]
+        ex.oblige(q, "reads-the-target-of-the-link-in-hand", to_z3(args[0]) == S_TARGET(j, l), ln, "post")
+        o.f["block"] = S_TARGET(j, l)
+        q.w["__read"] = S_TARGET(j, l)
+        q.mut += 1
+        return [(q, None)]
+
+
+class WindupBlock(Contract):
+    qual = "LRUTrie.windup_lru_for_webentity"
+
+    def apply(self, ex, p, recv, args, kw, ln):
+        ok = isinstance(args[0], Ref) and p.obj(args[0]).f.get("__scratch")
+        if not ok:
+            raise Unsupported("windup of a node that is not the scratch node")
+        b = to_z3(p.obj(args[0]).f["block"])
+        return [(p, Opt(WEB_NONE(b), WEB(b)))]
+
+
+def slow_map_store(ex, p, ref, k, v, ln):
+    if isinstance(v, Opt):
+        v = ex.unwrap(v, p, "webentity stored in the page map", ln)
+    kz, vz = to_z3(k), to_z3(v)
+    ex.oblige(p, "page-map:block->the-webentity-that-block-resolves-to(never-null)", z3.And(s_resolves(kz), vz == WEB(kz)), ln, "post")
+    p.w["__mdom"] = z3.Store(p.w["__mdom"], kz, z3.BoolVal(True))
+    p.w["__mval"] = z3.Store(p.w["__mval"], kz, vz)
+    p.mut += 1
+    return p
+
+
+def slow_counter_setitem(ex, p, base, idx, v, ln):
+    if isinstance(idx, Opt):
+        idx = ex.unwrap(idx, p, "target webentity", ln)
+    j, l = p.w["__cur_item"], p.w["__cur_link"]
+    ex.oblige(p, "edge:from-the-webentity-of-the-page-in-hand", z3.And(IS_PAGE(j), HAS_LINKS(j), s_resolves(ITEM_BLOCK(j)), base.src == WEB(ITEM_BLOCK(j))), ln, "post")
+    ex.oblige(p, "edge:to-the-webentity-the-link's-target-resolves-to", to_z3(idx) == WEB(S_TARGET(j, l)), ln, "post")
+    ex.oblige(p, "edge:qualifies(target-resolves,auto-links-only-when-asked)", s_counted(j, l), ln, "post")
+    p.w["__adds"] = z3.simplify(p.w["__adds"] + 1)
+    p.mut += 1
+    return p
+
+
+def slow_map_sound(p):
+    b = z3.Int("b")
+    return ("page-map-holds-only-(block,webentity-it-resolves-to)-pairs", z3.ForAll([b], z3.Implies(z3.Select(p.w["__mdom"], b), z3.And(s_resolves(b), z3.Select(p.w["__mval"], b) == WEB(b)))))
+
+
+def slow_items_inv(ex, p):
+    return [slow_map_sound(p)]
+
+
+def slow_walk_inv(ex, p):
+    l = _idx(p, -1)
+    j = p.w["__cur_item"]
+    return [slow_map_sound(p), ("walk-belongs-to-a-resolved-page-with-links", z3.And(j >= 0, IS_PAGE(j), HAS_LINKS(j), s_resolves(ITEM_BLOCK(j)))), ("no-qualifying-link-of-this-page-skipped-or-counted-twice", z3.And(l >= 0, p.w["__adds"] == SNC(j, l)))]
+
+
+class NetworkSlow(Contract):
+    """Traph.get_webentities_links_slow_iter over ANY traversal / link sequences: the
+    page map only ever holds (block, webentity that block resolves to); every edge adds
+    the weight of one link of the page in hand from the webentity the page's block
+    resolves to, to the webentity the target's block resolves to (whether it comes from
+    the map or from a fresh windup), only when the target resolves and, unless
+    include_auto, differs; none skipped or counted twice.  With `WEBENTITY_OF_BLOCK` =
+    NEAR this is the same edge set as the fast variant's."""
+
+    qual = "Traph.get_webentities_links_slow_iter"
+
+    def setups(self, ex):
+        p = Path()
+        for ax in slow_axioms():
+            p.assume(ax)
+        mk_world(p)
+        p.w["__read"] = z3.IntVal(-1)
+        trie = p.new_obj("LRUTrie", {})
+        ls = p.new_obj("LinkStore", {})
+        t = p.new_obj("Traph", {"lru_trie": trie, "link_store": ls})
+        yield p, t, [], {"out": OUT, "include_auto": INCLUDE_AUTO}, "any"
+
+    def on_yield(self, ex, p, v, ln, tag):
+        if isinstance(v, Ref) and p.obj(v).f.get("done") is True:
+            p.w["__final"] = p.obj(v).f.get("result")
+        return [(p, "normal", None)]
+
+    def check(self, ex, p0, res, tag):
+        for p1, kind, val in res:
+            if kind == "raise":
+                ex.oblige(p1, "raises-nothing(%s)" % val[0], False, val[1])
+                continue
+            ex.oblige(p1, "finishes-with-the-graph", z3.BoolVal(isinstance(p1.w["__final"], Ref) and p1.w["__final"] == p1.env.get("graph")), None)
+
+
+def install_slow(lib):
+    lib.methods[("defaultdict", "__getitem__")] = graph_getitem
+    lib.methods[("CounterHandle", "__getitem__")] = counter_getitem
+    lib.methods[("CounterHandle", "__setitem__")] = slow_counter_setitem
+    lib.map_store = slow_map_store
+    lib.methods[("dict", "get")] = map_get
+    key = "Traph.get_webentities_links_slow_iter::for#%d"
+    lib.loop_spec(key % 0, LoopSpec(slow_items_inv, havoc=havoc2, world=("__mdom", "__mval", "__adds", "__read")))
+    lib.loop_spec(key % 1, LoopSpec(slow_walk_inv, havoc=havoc2, world=("__mdom", "__mval", "__adds", "__read")))
+    accs = [_acc("is_page", IS_PAGE), _acc("has_links", HAS_LINKS), _acc("links", LINKS_HEAD)]
+    return [DfsCallee(), SlowWalk(), Scratch(), ScratchRead(), WindupBlock(), ShouldYield(), NetworkSlow()] + accs
